@@ -1,49 +1,56 @@
 package c07
 
 import (
+	"context"
 	"errors"
 	"fmt"
-	"io"
+	"net/http"
+	"reflect"
+	"strings"
 	"testing"
 	"time"
-
-	"github.com/zeromicro/go-zero/core/syncx"
 
 	"verifsim/simharness"
 	"verifsim/simrt"
 )
 
 // C07: SingleFlight / LockedCalls / ResourceManager.
+//
+// c07_test.go   history model, workload generator (plans, result / error / panic kinds, key
+//               shapes, nested calls, several objects per run), body, engine config
+// sf_test.go    SingleFlight member and its oracle
+// lc_test.go    LockedCalls member and its oracle
+// rm_test.go    ResourceManager member (GetResource, Inject, Close) and its oracle
 
 type exec struct {
 	id         int
-	key        string
-	leader     int // call index
-	start, end int // logical clock; end==0 while running
+	key        string // world key: object index + key index (see plan.wkey)
+	leader     int    // call index
+	start, end int    // logical clock; end==0 while running
 	startT     time.Time
 	endT       time.Time
-	val        int
+	val        any
 	err        error
 	panicked   bool
+	panicVal   any
+	shared     int // SingleFlight: callers that received this execution's result without running
 }
 
 type call struct {
-	id          int
-	key         string
-	inv, ret    int
-	invT        time.Time
-	val         any
-	fresh       bool
-	err         error
-	panicked    bool
-	ownRuns     int
-	returned    bool
-	ownExec     *exec
+	id       int
+	key      string // world key
+	raw      string // key as passed to go-zero
+	inv, ret int
+	invT     time.Time
+	val      any
+	fresh    bool
+	err      error
+	panicked bool
+	panicVal any
+	ownRuns  int
+	returned bool
+	ownExec  *exec
 }
-
-type closer struct{ id int }
-
-func (c *closer) Close() error { return nil }
 
 type world struct {
 	r      *simrt.Run
@@ -52,26 +59,400 @@ type world struct {
 	execs  []*exec
 	calls  []*call
 	active map[string]*exec
+	// mkVal produces the value of a successful execution (nil: the generic value kinds)
+	mkVal func(e *exec, vk int) any
+	// nested performs a call made from inside a supplied function
+	nested func(p *plan)
 }
 
 func (w *world) tick() int { w.clk++; return w.clk }
 
-// runFn is the body of a supplied function: records the execution, takes some
-// virtual time / scheduling points, and produces a unique result.
-func (w *world) runFn(c *call, dur time.Duration, yields int, outcome int, gate chan struct{}) (*exec, error) {
+// ---------------------------------------------------------------------------------------------
+// result / error / panic kinds
+
+// errSentinel is a package-level error shared by every execution that returns it (one identity
+// for many executions, as io.EOF / sql.ErrNoRows / a model's ErrNotFound are in real users).
+var errSentinel = errors.New("c07: sentinel error")
+
+// execErr is an error owned by one execution.
+type execErr struct{ id int }
+
+func (e *execErr) Error() string { return fmt.Sprintf("err-of-exec-%d", e.id) }
+
+// multiErr is an error of a non-comparable dynamic type (like validator.ValidationErrors).
+type multiErr []error
+
+func (m multiErr) Error() string { return fmt.Sprintf("%d errors", len(m)) }
+
+// resVal is a result handed out by pointer.
+type resVal struct{ id int }
+
+const (
+	nValKinds   = 6
+	nErrKinds   = 6
+	nPanicKinds = 5
+)
+
+type outcome struct {
+	kind int  // 0 value, 1 error, 2 panic
+	vk   int  // value kind (kind 0, or kind 1 with both)
+	ek   int  // error kind
+	both bool // an error AND a non-nil value
+	pk   int  // panic kind
+}
+
+func (o outcome) String() string {
+	switch o.kind {
+	case 1:
+		if o.both {
+			return fmt.Sprintf("err%d+val%d", o.ek, o.vk)
+		}
+		return fmt.Sprintf("err%d", o.ek)
+	case 2:
+		return fmt.Sprintf("panic%d", o.pk)
+	}
+	return fmt.Sprintf("val%d", o.vk)
+}
+
+// sameAny is identity of two results / errors / panic values: equal dynamic type and, for
+// comparable types, ==; for slices the same backing array and length.
+func sameAny(a, b any) bool {
+	if a == nil || b == nil {
+		return a == nil && b == nil
+	}
+	ta, tb := reflect.TypeOf(a), reflect.TypeOf(b)
+	if ta != tb {
+		return false
+	}
+	if ta.Comparable() {
+		return a == b
+	}
+	if ta.Kind() == reflect.Slice {
+		va, vb := reflect.ValueOf(a), reflect.ValueOf(b)
+		return va.Len() == vb.Len() && va.Pointer() == vb.Pointer()
+	}
+	return false
+}
+
+func sameErr(a, b error) bool { return sameAny(a, b) }
+
+// runtimeErr produces a genuine runtime.Error value.
+func runtimeErr() (v any) {
+	defer func() { v = recover() }()
+	var m map[string]int
+	m["x"] = 1
+	return nil
+}
+
+func (w *world) value(e *exec, vk int) any {
+	if w.mkVal != nil {
+		return w.mkVal(e, vk)
+	}
+	switch vk {
+	case 1:
+		w.r.Probe("val-pointer")
+		return &resVal{id: e.id}
+	case 2:
+		w.r.Probe("val-uncomparable-bytes")
+		return []byte(fmt.Sprintf("bytes-of-exec-%d", e.id))
+	case 3:
+		w.r.Probe("val-nil-with-nil-error")
+		return nil
+	case 4:
+		w.r.Probe("val-shared-by-executions")
+		return "same-value"
+	case 5:
+		w.r.Probe("val-typed-nil-pointer")
+		return (*resVal)(nil)
+	}
+	return 1000 + e.id
+}
+
+func (w *world) errValue(e *exec, ek int) error {
+	switch ek {
+	case 1:
+		w.r.Probe("err-shared-sentinel")
+		return errSentinel
+	case 2:
+		w.r.Probe("err-wrapping-sentinel")
+		return fmt.Errorf("exec %d: %w", e.id, errSentinel)
+	case 3:
+		w.r.Probe("err-context-deadline-exceeded")
+		return context.DeadlineExceeded
+	case 4:
+		w.r.Probe("err-context-canceled")
+		return context.Canceled
+	case 5:
+		w.r.Probe("err-uncomparable-type")
+		return multiErr{&execErr{id: e.id}, errSentinel}
+	}
+	return &execErr{id: e.id}
+}
+
+func (w *world) panicValue(e *exec, pk int) any {
+	switch pk {
+	case 1:
+		w.r.Probe("panic-error-value")
+		return &execErr{id: e.id}
+	case 2:
+		w.r.Probe("panic-runtime-error")
+		return runtimeErr()
+	case 3:
+		w.r.Probe("panic-http-abort-handler")
+		return http.ErrAbortHandler
+	case 4:
+		w.r.Probe("panic-shared-sentinel-error")
+		return errSentinel
+	}
+	return fmt.Sprintf("panic-of-exec-%d", e.id)
+}
+
+// finish ends an execution with the planned outcome.
+func (w *world) finish(e *exec, o outcome) (any, error) {
+	switch o.kind {
+	case 2:
+		e.panicked = true
+		e.panicVal = w.panicValue(e, o.pk)
+		panic(e.panicVal)
+	case 1:
+		e.err = w.errValue(e, o.ek)
+		if o.both {
+			e.val = w.value(e, o.vk)
+			if e.val != nil {
+				w.r.Probe("val-together-with-error")
+			}
+		}
+	default:
+		e.val = w.value(e, o.vk)
+	}
+	return e.val, e.err
+}
+
+// ---------------------------------------------------------------------------------------------
+// plans
+
+type plan struct {
+	g        int // object index
+	ki       int // key index
+	key      string
+	ex       bool // SingleFlight: DoEx instead of Do
+	op       int  // ResourceManager: 0 GetResource, 1 Inject
+	dur      time.Duration
+	yields   int
+	out      outcome
+	think    time.Duration
+	nest     *plan // call made from inside the function (strictly larger (g, ki): no cycles)
+	nestLate bool  // nested call after (instead of before) the function's own work
+}
+
+func (p *plan) wkey() string { return fmt.Sprintf("%d|%d", p.g, p.ki) }
+
+func (p *plan) String() string {
+	s := fmt.Sprintf("{g%d %q ex=%v op=%d dur=%v y=%d %v think=%v", p.g, p.key, p.ex, p.op, p.dur, p.yields, p.out, p.think)
+	if p.nest != nil {
+		s += fmt.Sprintf(" nest(late=%v)=%v", p.nestLate, p.nest)
+	}
+	return s + "}"
+}
+
+var longPrefix = strings.Repeat("tenant-0001/", 6) // 72 bytes in common
+
+// keyPool: three keys per style.  Style 0 is the plain one.
+func keyPool(style int) []string {
+	switch style {
+	case 1: // the empty key, keys differing in case only
+		return []string{"", "k", "K"}
+	case 2: // long keys that differ after a long common prefix, and that prefix itself
+		return []string{longPrefix + "0", longPrefix + "1", longPrefix}
+	case 3: // separator characters, one key a prefix of the others
+		return []string{"a:b", "a:c", "a"}
+	case 4: // keys differing in surrounding white space only
+		return []string{"k", " k", "k\n"}
+	}
+	return []string{"k0", "k1", "k2"}
+}
+
+var keyStyleNames = []string{"plain", "empty-and-case", "long-common-prefix", "separator-and-prefix", "white-space"}
+
+// env is the per-run shape of the workload (swarm style: each dimension is on in a part of the
+// runs only; the zero draw switches everything off).
+type env struct {
+	t          *simrt.Tape
+	nTasks     int
+	nKeys      int
+	perTask    int
+	nGroups    int
+	keyStyle   int
+	keys       []string
+	allowPanic bool
+	rich       bool // result / error / panic kinds beyond the plain ones
+	nestOn     bool
+	burst      bool
+	injectOn   bool
+}
+
+func drawEnv(r *simrt.Run, tier string, withEx bool) *env {
+	t := r.Tape
+	ev := &env{t: t}
+	maxT, maxP := 5, 3
+	if tier == "thorough" {
+		maxT, maxP = 8, 5
+	}
+	ev.nTasks, ev.nKeys, ev.perTask = t.Range(2, maxT), t.Range(1, 3), t.Range(1, maxP)
+	ev.allowPanic = t.Chance(1, 4)
+	ev.rich = t.Chance(1, 2)
+	ev.nGroups = 1
+	if t.Chance(1, 4) {
+		ev.nGroups = 2
+	}
+	if t.Chance(1, 3) {
+		ev.keyStyle = 1 + t.Intn(4)
+	}
+	ev.nestOn = t.Chance(1, 4)
+	if t.Chance(1, 16) {
+		// many callers of one key at once
+		ev.burst = true
+		hi := 32
+		if tier == "thorough" {
+			hi = 64
+		}
+		ev.nTasks, ev.nKeys, ev.perTask = t.Range(9, hi), 1, t.Range(1, 2)
+	}
+	ev.keys = keyPool(ev.keyStyle)
+	if ev.nGroups > 1 {
+		r.Probe("objects-2-sharing-keys")
+	}
+	if ev.keyStyle > 0 && (ev.nKeys > 1 || ev.keyStyle == 1) {
+		r.Probe("keys-" + keyStyleNames[ev.keyStyle])
+	}
+	if ev.burst {
+		r.Probe("burst-9-or-more-callers")
+	}
+	return ev
+}
+
+func drawDur(t *simrt.Tape) time.Duration {
+	switch t.Intn(4) {
+	case 0, 1:
+		return 0
+	case 2:
+		return time.Duration(t.Range(1, 50)) * time.Millisecond
+	default:
+		return time.Duration(t.Range(1, 5)) * time.Second
+	}
+}
+
+func (ev *env) drawOutcome(allowPanic bool) outcome {
+	t := ev.t
+	var o outcome
+	switch v := t.Intn(10); {
+	case v < 6:
+	case v < 9 || !allowPanic:
+		o.kind = 1
+	default:
+		o.kind = 2
+	}
+	if ev.rich {
+		switch o.kind {
+		case 0:
+			o.vk = t.Intn(nValKinds)
+		case 1:
+			o.ek = t.Intn(nErrKinds)
+			if o.both = t.Chance(1, 3); o.both {
+				o.vk = t.Intn(nValKinds)
+			}
+		case 2:
+			o.pk = t.Intn(nPanicKinds)
+		}
+	}
+	return o
+}
+
+func (ev *env) drawPlan(withEx, top bool, after *plan) *plan {
+	t := ev.t
+	p := &plan{}
+	if after == nil {
+		if ev.nGroups > 1 {
+			p.g = t.Intn(ev.nGroups)
+		}
+		p.ki = t.Intn(ev.nKeys)
+	} else {
+		// strictly larger (g, ki) than the enclosing call
+		rank := after.g*ev.nKeys + after.ki
+		n := ev.nGroups*ev.nKeys - rank - 1
+		rank += 1 + t.Intn(n)
+		p.g, p.ki = rank/ev.nKeys, rank%ev.nKeys
+	}
+	p.key = ev.keys[p.ki]
+	if withEx {
+		p.ex = t.Bool()
+	}
+	p.dur, p.yields = drawDur(t), t.Intn(3)
+	p.out = ev.drawOutcome(ev.allowPanic && top)
+	if top {
+		p.think = drawDur(t) / 2
+		if ev.burst {
+			p.think = 0
+		}
+		if ev.nestOn && p.g*ev.nKeys+p.ki < ev.nGroups*ev.nKeys-1 && t.Chance(1, 3) {
+			p.nest = ev.drawPlan(withEx, false, p)
+			p.nestLate = t.Bool()
+		}
+	}
+	return p
+}
+
+func (ev *env) drawPlans(withEx bool) [][]*plan {
+	plans := make([][]*plan, ev.nTasks)
+	for i := range plans {
+		for j := 0; j < ev.perTask; j++ {
+			plans[i] = append(plans[i], ev.drawPlan(withEx, true, nil))
+		}
+	}
+	return plans
+}
+
+func (ev *env) sample(component string, plans [][]*plan) map[string]any {
+	return map[string]any{"component": component, "tasks": ev.nTasks, "keys": ev.nKeys, "calls_per_task": ev.perTask,
+		"objects": ev.nGroups, "key_style": keyStyleNames[ev.keyStyle], "rich_results": ev.rich, "panics": ev.allowPanic,
+		"nested_calls": ev.nestOn, "burst": ev.burst, "first_task_plan": fmt.Sprintf("%v", plans[0])}
+}
+
+// ---------------------------------------------------------------------------------------------
+
+func (w *world) newCall(p *plan) *call {
+	c := &call{id: len(w.calls), key: p.wkey(), raw: p.key}
+	w.calls = append(w.calls, c)
+	c.inv = w.tick()
+	c.invT = time.Now()
+	return c
+}
+
+// runFn is the body of a supplied function: records the execution, takes some virtual time /
+// scheduling points, optionally calls into the component again (another key), and produces the
+// planned result.
+func (w *world) runFn(c *call, p *plan, gate chan struct{}) (any, error) {
 	e := &exec{id: len(w.execs), key: c.key, leader: c.id, start: w.tick(), startT: time.Now()}
 	w.execs = append(w.execs, e)
 	c.ownRuns++
 	c.ownExec = e
 	if other := w.active[c.key]; other != nil {
-		w.r.Fail("overlap", "key %s: execution %d (call %d) started while execution %d (call %d) is still running", c.key, e.id, c.id, other.id, other.leader)
+		w.r.Fail("overlap", "key %q (object|key %s): execution %d (call %d) started while execution %d (call %d) is still running", c.raw, c.key, e.id, c.id, other.id, other.leader)
 	}
 	w.active[c.key] = e
-	for i := 0; i < yields; i++ {
+	for i := 0; i < p.yields; i++ {
 		w.r.Yield()
 	}
-	if dur > 0 {
-		w.r.Sleep(dur)
+	if p.nest != nil && !p.nestLate {
+		w.r.Probe("nested-call-from-function")
+		w.nested(p.nest)
+	}
+	if p.dur > 0 {
+		w.r.Sleep(p.dur)
+	}
+	if p.nest != nil && p.nestLate {
+		w.r.Probe("nested-call-from-function")
+		w.nested(p.nest)
 	}
 	if gate != nil {
 		simrt.Recv("gate", gate)
@@ -81,15 +462,7 @@ func (w *world) runFn(c *call, dur time.Duration, yields int, outcome int, gate 
 	}
 	e.end = w.tick()
 	e.endT = time.Now()
-	e.val = 1000 + e.id
-	switch outcome {
-	case 1:
-		e.err = fmt.Errorf("err-of-exec-%d", e.id)
-	case 2:
-		e.panicked = true
-		panic(fmt.Sprintf("panic-of-exec-%d", e.id))
-	}
-	return e, e.err
+	return w.finish(e, p.out)
 }
 
 func overlaps(a, b *call) bool {
@@ -104,6 +477,55 @@ func overlaps(a, b *call) bool {
 	return a.inv < bret && b.inv < aret
 }
 
+// sharedPanicked returns the panicked executions of c's key whose leading call overlaps c (the
+// executions c may have shared without running its own function).
+func (w *world) sharedPanicked(c *call) []*exec {
+	var out []*exec
+	for _, e := range w.execs {
+		if e.key == c.key && e.panicked && e.leader != c.id && overlaps(c, w.calls[e.leader]) {
+			out = append(out, e)
+		}
+	}
+	return out
+}
+
+// checkPanic: a caller panics exactly when its own function did, with the very same value; a
+// caller that did not run its function may only see the re-raised panic value of an execution
+// it shares.  waiterClass names the violation "a caller sharing a panicked execution panics
+// with something else".  Returns true when the call ended by a (legitimate or not) panic or a
+// violation was reported.
+func (w *world) checkPanic(c *call, waiterClass string) bool {
+	own := c.ownExec
+	if c.panicked {
+		if own != nil && own.panicked {
+			if !sameAny(c.panicVal, own.panicVal) {
+				w.r.Fail("panic-value-changed", "call %d on %q: its function panicked with %#v, the caller saw %#v", c.id, c.raw, own.panicVal, c.panicVal)
+			}
+			return true
+		}
+		if own == nil {
+			sh := w.sharedPanicked(c)
+			for _, e := range sh {
+				if sameAny(c.panicVal, e.panicVal) {
+					w.r.Probe("waiter-got-reraised-panic-of-shared-exec")
+					return true
+				}
+			}
+			if len(sh) > 0 {
+				w.r.Fail(waiterClass, "call %d on %q did not run its function, shared the flight of call %d whose function panicked (%v), and itself panicked with something else: %v", c.id, c.raw, sh[0].leader, sh[0].panicVal, c.panicVal)
+				return true
+			}
+		}
+		w.r.Fail("foreign-panic", "call %d on %q panicked with %v although its own function did not", c.id, c.raw, c.panicVal)
+		return true
+	}
+	if own != nil && own.panicked {
+		w.r.Fail("panic-swallowed", "call %d on %q: its own function panicked with %v but the call returned (%v, %v)", c.id, c.raw, own.panicVal, c.val, c.err)
+		return true
+	}
+	return false
+}
+
 func body(r *simrt.Run, tier string) {
 	t := r.Tape
 	switch t.Intn(3) {
@@ -114,378 +536,6 @@ func body(r *simrt.Run, tier string) {
 	default:
 		resourceManager(r, tier)
 	}
-}
-
-func sizes(t *simrt.Tape, tier string) (nTasks, nKeys, perTask int) {
-	maxT, maxP := 5, 3
-	if tier == "thorough" {
-		maxT, maxP = 8, 5
-	}
-	return t.Range(2, maxT), t.Range(1, 3), t.Range(1, maxP)
-}
-
-func drawDur(t *simrt.Tape) time.Duration {
-	switch t.Intn(4) {
-	case 0, 1:
-		return 0
-	case 2:
-		return time.Duration(t.Range(1, 50)) * time.Millisecond
-	default:
-		return time.Duration(t.Range(1, 5)) * time.Second
-	}
-}
-
-func singleFlight(r *simrt.Run, tier string) {
-	t := r.Tape
-	w := &world{r: r, active: map[string]*exec{}}
-	g := syncx.NewSingleFlight()
-	nTasks, nKeys, perTask := sizes(t, tier)
-	allowPanic := t.Chance(1, 4)
-	type plan struct {
-		key     string
-		ex      bool
-		dur     time.Duration
-		yields  int
-		outcome int
-		think   time.Duration
-	}
-	plans := make([][]plan, nTasks)
-	for i := range plans {
-		for j := 0; j < perTask; j++ {
-			p := plan{key: fmt.Sprintf("k%d", t.Intn(nKeys)), ex: t.Bool(), dur: drawDur(t), yields: t.Intn(3), think: drawDur(t) / 2}
-			switch v := t.Intn(10); {
-			case v < 6:
-			case v < 9 || !allowPanic:
-				p.outcome = 1
-			default:
-				p.outcome = 2
-			}
-			plans[i] = append(plans[i], p)
-		}
-	}
-	if r.Tracing() {
-		r.Logf("singleflight tasks=%d keys=%d plans=%+v", nTasks, nKeys, plans)
-	}
-	r.Sample(map[string]any{"component": "SingleFlight", "tasks": nTasks, "keys": nKeys, "calls_per_task": perTask, "first_task_plan": fmt.Sprintf("%+v", plans[0])})
-	var tasks []*simrt.Task
-	for i := 0; i < nTasks; i++ {
-		i := i
-		tasks = append(tasks, r.Go(fmt.Sprintf("client%d", i), func() {
-			for _, p := range plans[i] {
-				if p.think > 0 {
-					r.Sleep(p.think)
-				}
-				c := &call{id: len(w.calls), key: p.key}
-				w.calls = append(w.calls, c)
-				c.inv = w.tick()
-				r.Ev("invoke", int64(c.id))
-				func() {
-					defer func() {
-						if rec := recover(); rec != nil {
-							c.panicked = true
-						}
-					}()
-					fn := func() (any, error) {
-						e, err := w.runFn(c, p.dur, p.yields, p.outcome, nil)
-						return e.val, err
-					}
-					if p.ex {
-						c.val, c.fresh, c.err = g.DoEx(p.key, fn)
-					} else {
-						c.val, c.err = g.Do(p.key, fn)
-						c.fresh = c.ownRuns > 0 // Do does not report freshness
-					}
-				}()
-				c.ret = w.tick()
-				c.returned = true
-				r.Ev("return", int64(c.id))
-				w.checkSF(c)
-			}
-		}))
-	}
-	if !r.JoinTimeout(6*time.Hour, tasks...) {
-		r.Fail("stuck", "SingleFlight callers did not all return: %v", r.AliveTasks())
-	}
-	r.Probe("oracle")
-}
-
-// checkSF validates one returned SingleFlight call against the recorded executions.
-func (w *world) checkSF(c *call) {
-	r := w.r
-	if c.ownRuns > 1 {
-		r.Fail("multi-run", "call %d ran its function %d times", c.id, c.ownRuns)
-		return
-	}
-	if c.panicked {
-		if c.ownExec == nil || !c.ownExec.panicked {
-			r.Fail("foreign-panic", "call %d panicked although its own function did not", c.id)
-		}
-		return
-	}
-	// which execution produced the returned value?
-	var src *exec
-	for _, e := range w.execs {
-		if e.key != c.key || e.end == 0 {
-			continue
-		}
-		if e.panicked {
-			continue
-		}
-		if c.err != nil {
-			if errors.Is(c.err, e.err) && e.err != nil {
-				src = e
-			}
-		} else if e.err == nil && c.val == any(e.val) {
-			src = e
-		}
-	}
-	if src == nil {
-		// (nil, nil) is what waiters of a panicked execution get
-		if c.val == nil && c.err == nil {
-			for _, e := range w.execs {
-				if e.key == c.key && e.panicked && e.leader != c.id && overlaps(c, w.calls[e.leader]) {
-					r.Probe("waiter-of-panicked-exec")
-					if c.fresh {
-						r.Fail("fresh", "call %d reported fresh but did not run", c.id)
-					}
-					return
-				}
-			}
-		}
-		r.Fail("unattributable", "call %d on %s returned (%v, %v) which no execution of that key produced (own runs=%d)", c.id, c.key, c.val, c.err, c.ownRuns)
-		return
-	}
-	isLeader := src.leader == c.id
-	if c.ownRuns == 1 && !isLeader {
-		r.Fail("own-result-lost", "call %d ran its own function (exec %d) but received the result of exec %d", c.id, c.ownExec.id, src.id)
-		return
-	}
-	if !isLeader {
-		r.Probe("shared-result")
-		L := w.calls[src.leader]
-		if !overlaps(c, L) {
-			r.Fail("stale", "call %d [%d,%d] on %s received the result of exec %d whose leading call %d [%d,%d] does not overlap it", c.id, c.inv, c.ret, c.key, src.id, L.id, L.inv, L.ret)
-			return
-		}
-	}
-	if c.fresh != isLeader {
-		r.Fail("fresh", "call %d fresh=%v but leader=%v (exec %d led by call %d)", c.id, c.fresh, isLeader, src.id, src.leader)
-	}
-}
-
-func lockedCalls(r *simrt.Run, tier string) {
-	t := r.Tape
-	w := &world{r: r, active: map[string]*exec{}, t0: time.Now()}
-	g := syncx.NewLockedCalls()
-	nTasks, nKeys, perTask := sizes(t, tier)
-	// optionally one call on key "gate" blocks until main has seen all other keys finish
-	useGate := nKeys >= 1 && t.Chance(1, 3)
-	gate := make(chan struct{})
-	type plan struct {
-		key     string
-		dur     time.Duration
-		yields  int
-		outcome int
-		think   time.Duration
-	}
-	plans := make([][]plan, nTasks)
-	for i := range plans {
-		for j := 0; j < perTask; j++ {
-			p := plan{key: fmt.Sprintf("k%d", t.Intn(nKeys)), dur: drawDur(t), yields: t.Intn(3), think: drawDur(t) / 2}
-			if t.Intn(10) >= 7 {
-				p.outcome = 1
-			}
-			plans[i] = append(plans[i], p)
-		}
-	}
-	if r.Tracing() {
-		r.Logf("lockedcalls tasks=%d keys=%d gate=%v plans=%+v", nTasks, nKeys, useGate, plans)
-	}
-	r.Sample(map[string]any{"component": "LockedCalls", "tasks": nTasks, "keys": nKeys, "gate_key_stalled": useGate, "first_task_plan": fmt.Sprintf("%+v", plans[0])})
-	do := func(c *call, p plan, gt chan struct{}) {
-		w.calls = append(w.calls, c)
-		c.inv = w.tick()
-		c.invT = time.Now()
-		v, err := g.Do(c.key, func() (any, error) {
-			e, err := w.runFn(c, p.dur, p.yields, p.outcome, gt)
-			return e.val, err
-		})
-		c.ret = w.tick()
-		c.returned = true
-		if c.ownRuns != 1 {
-			r.Fail("own-runs", "LockedCalls call %d ran its function %d times", c.id, c.ownRuns)
-			return
-		}
-		e := c.ownExec
-		if e.err != nil {
-			if err != e.err {
-				r.Fail("result", "LockedCalls call %d: got error %v, own function returned %v", c.id, err, e.err)
-			}
-		} else if err != nil || v != any(e.val) {
-			r.Fail("result", "LockedCalls call %d: got (%v,%v), own function returned (%v,nil)", c.id, v, err, e.val)
-		}
-	}
-	var gated *simrt.Task
-	var gateWaiters []*simrt.Task
-	if useGate {
-		gated = r.Go("gated", func() {
-			do(&call{id: len(w.calls), key: "gatekey"}, plan{key: "gatekey"}, gate)
-		})
-		// let the gated call get going (it may or may not have registered yet; both are fine)
-		for i := t.Intn(4); i > 0; i-- {
-			r.Yield()
-		}
-		// further callers of the stalled key: they may stay blocked until the release (or run
-		// before the gated call if they win the race), but whatever they do inside LockedCalls
-		// while waiting must not hold up the calls on the other keys
-		for i := t.Intn(3); i > 0; i-- {
-			i := i
-			th := drawDur(t) / 2
-			gateWaiters = append(gateWaiters, r.Go(fmt.Sprintf("gatewaiter%d", i), func() {
-				if th > 0 {
-					r.Sleep(th)
-				}
-				do(&call{id: len(w.calls), key: "gatekey"}, plan{key: "gatekey"}, nil)
-			}))
-			r.Probe("waiter-on-stalled-key")
-		}
-	}
-	var tasks []*simrt.Task
-	for i := 0; i < nTasks; i++ {
-		i := i
-		tasks = append(tasks, r.Go(fmt.Sprintf("client%d", i), func() {
-			for _, p := range plans[i] {
-				if p.think > 0 {
-					r.Sleep(p.think)
-				}
-				do(&call{id: len(w.calls), key: p.key}, p, nil)
-			}
-		}))
-	}
-	if !r.JoinTimeout(6*time.Hour, tasks...) {
-		if useGate {
-			r.Fail("cross-key-blocking", "calls on other keys did not finish while key gatekey's function was stalled: %v", r.AliveTasks())
-		} else {
-			r.Fail("stuck", "LockedCalls callers did not all return: %v", r.AliveTasks())
-		}
-		return
-	}
-	if useGate {
-		r.Probe("cross-key-progress-checked")
-		simrt.Close("gate", gate)
-		if !r.JoinTimeout(time.Hour, append([]*simrt.Task{gated}, gateWaiters...)...) {
-			r.Fail("stuck", "LockedCalls calls on the stalled key did not return after its release: %v", r.AliveTasks())
-		}
-	}
-	// "calls on different keys never wait for each other", timed form: computation takes no
-	// virtual time, so in a run without injected stalls a call starts its function either at
-	// the instant it was made or at an instant at which an execution on the SAME key ended;
-	// any other start instant means it was held up by (the end of) a call on another key.
-	if !stallOn {
-		for _, c := range w.calls {
-			e := c.ownExec
-			if e == nil || e.startT.Equal(c.invT) {
-				continue
-			}
-			ok := false
-			for _, o := range w.execs {
-				if o != e && o.key == c.key && o.end != 0 && o.endT.Equal(e.startT) {
-					ok = true
-					break
-				}
-			}
-			r.Probe("waiter-start-instant-checked")
-			if !ok {
-				r.Fail("cross-key-wait", "LockedCalls call %d on key %s was made at +%v and started its function at +%v, an instant at which no execution on key %s ended (no stalls injected): it waited for a call on another key",
-					c.id, c.key, c.invT.Sub(w.t0), e.startT.Sub(w.t0), c.key)
-				break
-			}
-		}
-	}
-	r.Probe("oracle")
-}
-
-func resourceManager(r *simrt.Run, tier string) {
-	t := r.Tape
-	w := &world{r: r, active: map[string]*exec{}}
-	m := syncx.NewResourceManager()
-	nTasks, nKeys, perTask := sizes(t, tier)
-	created := map[string]*closer{} // first successful creation per key
-	type plan struct {
-		key    string
-		dur    time.Duration
-		yields int
-		fail   bool
-		think  time.Duration
-	}
-	plans := make([][]plan, nTasks)
-	for i := range plans {
-		for j := 0; j < perTask; j++ {
-			plans[i] = append(plans[i], plan{key: fmt.Sprintf("k%d", t.Intn(nKeys)), dur: drawDur(t), yields: t.Intn(3), fail: t.Chance(1, 3), think: drawDur(t) / 2})
-		}
-	}
-	if r.Tracing() {
-		r.Logf("resourcemanager tasks=%d keys=%d plans=%+v", nTasks, nKeys, plans)
-	}
-	r.Sample(map[string]any{"component": "ResourceManager", "tasks": nTasks, "keys": nKeys, "first_task_plan": fmt.Sprintf("%+v", plans[0])})
-	var tasks []*simrt.Task
-	for i := 0; i < nTasks; i++ {
-		i := i
-		tasks = append(tasks, r.Go(fmt.Sprintf("client%d", i), func() {
-			for _, p := range plans[i] {
-				if p.think > 0 {
-					r.Sleep(p.think)
-				}
-				c := &call{id: len(w.calls), key: p.key}
-				w.calls = append(w.calls, c)
-				c.inv = w.tick()
-				var mine *closer
-				res, err := m.GetResource(p.key, func() (io.Closer, error) {
-					outcome := 0
-					if p.fail {
-						outcome = 1
-					}
-					e, err := w.runFn(c, p.dur, p.yields, outcome, nil)
-					if err != nil {
-						return nil, err
-					}
-					mine = &closer{id: e.id}
-					if prev := created[p.key]; prev != nil {
-						r.Fail("created-twice", "resource %s created successfully twice (exec %d after exec %d)", p.key, e.id, prev.id)
-					} else {
-						created[p.key] = mine
-					}
-					return mine, nil
-				})
-				c.ret = w.tick()
-				c.returned = true
-				if err != nil {
-					// must be the error of a failed creation that overlaps this call
-					ok := false
-					for _, e := range w.execs {
-						if e.key == p.key && e.err != nil && errors.Is(err, e.err) && overlaps(c, w.calls[e.leader]) {
-							ok = true
-						}
-					}
-					if !ok {
-						r.Fail("stale-error", "GetResource(%s) call %d returned error %v that no overlapping creation produced", p.key, c.id, err)
-					}
-					if res != nil {
-						r.Fail("result", "GetResource returned both a resource and an error")
-					}
-					continue
-				}
-				first := created[p.key]
-				if first == nil || res != io.Closer(first) {
-					r.Fail("different-instance", "GetResource(%s) call %d returned %v, the created instance is %v", p.key, c.id, res, first)
-				}
-			}
-		}))
-	}
-	if !r.JoinTimeout(6*time.Hour, tasks...) {
-		r.Fail("stuck", "ResourceManager callers did not all return: %v", r.AliveTasks())
-	}
-	r.Probe("oracle")
 }
 
 // stallOn: the scheduler may inject virtual-time stalls in this run (set by
